@@ -106,11 +106,30 @@ OPS = {"lt": operator.lt, "le": operator.le, "eq": operator.eq, "ne": operator.n
        "ge": operator.ge}
 
 
+# what callers catch: `except MatchNotFoundError`, `except LookupError`, `except TraversingError` …
+EXPECTED_BASES = {"NestedMatchNotFoundError": ("MatchNotFoundError", "LookupError", "TreepathException"),
+                  "MatchNotFoundError": ("LookupError", "TreepathException"), "SetError": ("LookupError", "TreepathException"),
+                  "PopError": ("LookupError", "TreepathException"), "TraversingError": ("RuntimeError", "TreepathException"),
+                  "InfiniteLoopDetected": ("TraversingError", "TreepathException"), "PathSyntaxError": ("SyntaxError", "TreepathException"),
+                  "StopTraversing": ("StopIteration", "TreepathException")}
+
+
+def _exc_name(e):
+    name = type(e).__name__
+    want = EXPECTED_BASES.get(name)
+    if want:
+        mro = [c.__name__ for c in type(e).__mro__]
+        missing = [b for b in want if b not in mro]
+        if missing:
+            return name + "(not a " + "/".join(missing) + ")"
+    return name
+
+
 def exc_chain(e):
     out = []
     seen = 0
     while e is not None and seen < 50:
-        out.append(type(e).__name__)
+        out.append(_exc_name(e))
         e = e.__cause__
         seen += 1
     return out
